@@ -38,6 +38,10 @@ func c27Docs() []c27Doc {
 		ds = append(ds, c27Doc{k, sigdoc.Options{SubFilter: k}})
 	}
 	ds = append(ds, c27Doc{"adbe.pkcs7.detached+exact,contents-last", sigdoc.Options{SubFilter: "adbe.pkcs7.detached", Exact: true, ContentsLast: true}})
+	// RSASSA-PSS signers (valid, and what newer signing software produces; none of the repository's samples has one)
+	for _, k := range []string{"adbe.pkcs7.detached", "ETSI.CAdES.detached", "adbe.pkcs7.sha1", "ETSI.RFC3161"} {
+		ds = append(ds, c27Doc{k + ",RSASSA-PSS", sigdoc.Options{SubFilter: k, PSS: true}})
+	}
 	ds = append(ds, c27Doc{"adbe.pkcs7.detached then ETSI.CAdES.detached", sigdoc.Options{SubFilter: "adbe.pkcs7.detached", Second: "ETSI.CAdES.detached"}})
 	ds = append(ds, c27Doc{"ETSI.CAdES.detached then ETSI.RFC3161", sigdoc.Options{SubFilter: "ETSI.CAdES.detached", Second: "ETSI.RFC3161"}})
 	return ds
